@@ -79,7 +79,7 @@ def n_for_result(n):
     return n
 
 
-def run_engine(src, time_limit=5.0, cpu_seconds=20, memory_limit=None):
+def run_engine(src, time_limit=3.0, cpu_seconds=12, memory_limit=None):
     m = engine.load()
     log = []
 
